@@ -64,6 +64,8 @@ fn try_opening_header<'a>(
 
     let mut alignments = vec![];
     for cell in delimiter_row.cells {
+        #[cfg(comrak_verif)]
+        crate::verif::step();
         let cell_content = cell.content.as_bytes();
         let left = !cell_content.is_empty() && cell_content[0] == b':';
         let right = !cell_content.is_empty() && cell_content[cell_content.len() - 1] == b':';
@@ -104,6 +106,8 @@ fn try_opening_header<'a>(
     let mut i = 0;
 
     while i < header_row.cells.len() {
+        #[cfg(comrak_verif)]
+        crate::verif::step();
         let cell = &header_row.cells[i];
         let ast_cell = parser.add_child(
             header,
@@ -166,6 +170,8 @@ fn try_opening_row<'a>(
     let mut last_column = sourcepos.start.column;
 
     while i < min(alignments.len(), this_row.cells.len()) {
+        #[cfg(comrak_verif)]
+        crate::verif::step();
         let cell = &this_row.cells[i];
         let cell_node = parser.add_child(
             new_row,
@@ -188,6 +194,8 @@ fn try_opening_row<'a>(
     incr_table_row_count(container, i);
 
     while i < alignments.len() {
+        #[cfg(comrak_verif)]
+        crate::verif::step();
         parser.add_child(new_row, NodeValue::TableCell, last_column);
         i += 1;
     }
@@ -221,6 +229,8 @@ fn row(string: &[u8], spoiler: bool) -> Option<Row> {
     let mut max_columns_abort = false;
 
     while offset < len && expect_more_cells {
+        #[cfg(comrak_verif)]
+        crate::verif::step();
         let cell_matched = scanners::table_cell(&string[offset..], spoiler).unwrap_or(0);
         let pipe_matched = scanners::table_cell_end(&string[offset + cell_matched..]).unwrap_or(0);
 
@@ -232,6 +242,8 @@ fn row(string: &[u8], spoiler: bool) -> Option<Row> {
             let mut internal_offset = 0;
 
             while start_offset > paragraph_offset && string[start_offset - 1] != b'|' {
+                #[cfg(comrak_verif)]
+                crate::verif::step();
                 start_offset -= 1;
                 internal_offset += 1;
             }
@@ -304,6 +316,8 @@ fn try_inserting_table_header_paragraph<'a>(
 
     // copy over the line offsets related to the paragraph
     for n in 0..newlines {
+        #[cfg(comrak_verif)]
+        crate::verif::step();
         paragraph.line_offsets.push(container_ast.line_offsets[n]);
     }
 
@@ -328,6 +342,8 @@ fn unescape_pipes(string: &[u8]) -> Vec<u8> {
     let mut v = Vec::with_capacity(len);
 
     for (i, &c) in string.iter().enumerate() {
+        #[cfg(comrak_verif)]
+        crate::verif::step();
         if c == b'\\' && i + 1 < len && string[i + 1] == b'|' {
             continue;
         } else {
